@@ -48,7 +48,7 @@ def default_cfg():
 class Step:
     __slots__ = ('idx', 'ep', 'kind', 'op', 'args', 'ok', 'exc', 'ret', 'events', 'raw_events',
                  'out', 'out_frames', 'in_frames', 'chunk', 'tick', 'tainted', 'pre', 'units',
-                 'snap', 'rejected', 'obs')
+                 'snap', 'rejected', 'obs', 'trailing')
 
     def __init__(self):
         self.exc = None
@@ -65,6 +65,7 @@ class Step:
         self.snap = None         # connection-level scalars before the step
         self.rejected = ()       # recv: per unit, answered with RST_STREAM
         self.obs = None          # read-only window probes after the step {sid: (local, remote)}
+        self.trailing = 0        # recv: bytes of a not yet complete frame held after this chunk
 
     def brief(self):
         d = {'i': self.idx, 'ep': self.ep, 'k': self.kind}
@@ -447,6 +448,7 @@ class World:
         s.chunk = chunk
         s.tainted = p.tainted
         s.in_frames = dst.in_tap.feed(chunk)
+        s.trailing = len(dst.in_tap.buf)
         try:
             evs = dst.conn.receive_data(chunk)
             s.ok = True
